@@ -241,6 +241,48 @@ def sweep_reduce(ctx):
     ctx.holds("chempy/**", "reduce-sweep", sites=n)
 
 
+def r7_arms(ctx):
+    """which arm runs: integer test of the multiplier, None-constants in addition, which of kf/kb is derived"""
+    def chk(q, frag, key, msg):
+        fn = ctx.func(CHEM, q)
+        ctx.check(has(fn, frag), CHEM + ":" + q, key, msg + " (expected `%s`)" % frag, node=fn)
+
+    q = "Equilibrium.__rmul__"
+    chk(q, "if not other_is_int or not isinstance(self, Equilibrium): return NotImplemented", "non-integer-refused", "a non-integer multiplier must be refused (K**n with truncated stoichiometry would be inconsistent)")
+    chk(q, "try: other_is_int = other.is_integer except AttributeError: other_is_int = isinstance(other, int)", "integer-test", "symbolic multipliers report .is_integer, plain ones must be int")
+    fn = ctx.func(CHEM, q)
+    neg = [i for i in walk_shallow(fn) if isinstance(i, ast.If) and U(i.test) in ("other < 0", "0 > other")]
+    ok = len(neg) == 1
+    if ok:
+        b = [U(x).replace(" ", "") for x in neg[0].body]
+        o = [U(x).replace(" ", "") for x in neg[0].orelse]
+        ok = "flip=True" in b and o == ["flip=False"] and any(x in b for x in ("other*=-1", "other=-other", "other=-1*other", "other=abs(other)", "other=other*-1"))
+    ctx.check(ok, CHEM + ":" + q, "flip-iff-negative", "a negative multiplier is made positive and flips the sides; a non-negative one does neither", node=fn)
+    chk(q, "if flip: reac, prod = (prod, reac) inact_reac, inact_prod = (inact_prod, inact_reac)", "both-pairs-flipped", "active and inactive sides are swapped together")
+    q = "Equilibrium.__add__"
+    chk(q, "if (self.param, other.param) == (None, None): param = None else: param = self.param * other.param", "constant-product-unless-both-missing", "the constant of a sum is the product unless neither operand has one")
+    chk(q, "if n < 0: reac[key] = -n elif n > 0: prod[key] = n", "netted-sides", "a negative net amount is a reactant with the positive coefficient, a positive one a product, zero is dropped")
+    chk(q, "for key in chain(self.reac.keys(), self.prod.keys(), other.reac.keys(), other.prod.keys()): keys.add(key)", "all-keys", "every species of both operands is considered")
+    chk(q, "return Equilibrium(reac, prod, param)", "result(reac,prod,K)", "the result is built from (reactants, products, constant) in that order")
+    q = "Equilibrium.as_reactions"
+    fn = ctx.func(CHEM, q)
+    top = [i for i in fn.body if isinstance(i, ast.If) and U(i.test) == "kf is None"]
+    ok = len(top) == 1
+    if ok:
+        t = top[0]
+        inner = [i for i in t.body if isinstance(i, ast.If) and U(i.test) == "kb is None"]
+        ok = len(inner) == 1 and any(isinstance(x, ast.Try) for x in inner[0].body) and len(inner[0].orelse) == 1 and isinstance(inner[0].orelse[0], ast.Assign) \
+            and U(inner[0].orelse[0].targets[0]) == "kf"
+        e = t.orelse
+        ok = ok and len(e) == 1 and isinstance(e[0], ast.If) and U(e[0].test) == "kb is None" and any(isinstance(x, ast.Assign) and U(x.targets[0]) == "kb" for x in e[0].body) \
+            and len(e[0].orelse) == 1 and isinstance(e[0].orelse[0], ast.Raise)
+    ctx.check(ok, CHEM + ":" + q, "derive-the-missing-rate", "kf missing: derive kf from kb (or take the pair); kb missing: derive kb from kf; both given: refuse", node=fn)
+    chk(q, "try: kf, kb = self.param except TypeError: raise ValueError(", "neither-given->pair-param", "with neither given the parameter must itself be a (kf, kb) pair")
+    chk(q, "if units is None: if hasattr(kf, 'units') or hasattr(kb, 'units'): raise ValueError('units missing') c0 = 1 else: c0 = 1 * units.molar", "standard-concentration",
+        "the standard concentration is 1 (no units) or 1 molar; unit-carrying rates without a units module are refused")
+    chk(q, "nb = sum(self.prod.values()) nf = sum(self.reac.values())", "nb,nf", "nb counts products, nf reactants")
+
+
 RULES = [
     Rule("C11-R1", r1_signed_power, 3, "K ** signed multiplier (reaching definition)"),
     Rule("C11-R2", r2_scale_and_flip, 11, "scaling of all four dicts, flip iff negative, delegating operators"),
@@ -248,6 +290,7 @@ RULES = [
     Rule("C11-R4", r4_forward_backward, 6, "kf/kb = K*c0^(nb-nf); backward reaction sides"),
     Rule("C11-R5", r5_total, 3, "eliminate total on its domain"),
     Rule("C11-R6", r6_common_multiple, 3, "eliminate: running maximum of prime exponents over all coefficients"),
+    Rule("C11-R7", r7_arms, 12, "arm selection in scaling, addition and as_reactions"),
     Rule("C11-S1", sweep_reduce, 1, "package-wide reduce-without-initialiser sweep (notes)", tier="thorough"),
 ]
 
